@@ -326,10 +326,10 @@ func (g *Gen) run() {
 		}
 	}
 
-	evalInvs := func(hi *headInfo, h *ssa.BasicBlock, st *State) []Term {
+	evalInvs := func(hi *headInfo, h *ssa.BasicBlock, st *State, role int) []Term {
 		var out []Term
 		for _, c := range hi.invs {
-			env := &SpecEnv{g: g, st: st, old: g.entry, fn: f, argOverride: map[string]Term{}, bound: map[string]Term{}, evalBlock: h}
+			env := &SpecEnv{g: g, st: st, old: g.entry, fn: f, argOverride: map[string]Term{}, bound: map[string]Term{}, evalBlock: h, role: role}
 			if hi.ri != nil {
 				riv := w.loadAddr(g.resolveAddr(hi.ri, st), st, tInt)
 				t := T(fmt.Sprintf("(+ %s 1)", riv.S), "Int")
@@ -538,7 +538,7 @@ func (g *Gen) run() {
 			g.entry = st.clone()
 			// requires
 			if g.ctr != nil {
-				env := &SpecEnv{g: g, st: st, old: st, fn: f, argOverride: map[string]Term{}, bound: map[string]Term{}, inOld: true}
+				env := &SpecEnv{g: g, st: st, old: st, fn: f, argOverride: map[string]Term{}, bound: map[string]Term{}, inOld: true, role: roleAssume}
 				for _, r := range g.ctr.Requires {
 					t, err := env.evalBool(r.Expr)
 					if err != nil {
@@ -557,7 +557,7 @@ func (g *Gen) run() {
 		if body, ok := loopBody[b]; ok {
 			hi := infos[b]
 			// 1. invariants hold on entry
-			for i, t := range evalInvs(hi, b, st) {
+			for i, t := range evalInvs(hi, b, st, roleAssert) {
 				g.addObNoAssume("inv_entry", fmt.Sprintf("loop%d_entry/%s", hi.ord, hi.invs[i].Label), b.Instrs[0].Pos(), st, t.S)
 			}
 			if ls, ts := frameInvs(st); len(ls) > 0 {
@@ -683,7 +683,7 @@ func (g *Gen) run() {
 				w.assume(fmt.Sprintf("(=> %s (>= %s (- 1)))", st.pc, riv.S))
 			}
 			// 3. assume invariants
-			for _, t := range evalInvs(hi, b, st) {
+			for _, t := range evalInvs(hi, b, st, roleAssume) {
 				w.assume(fmt.Sprintf("(=> %s %s)", st.pc, t.S))
 			}
 			if _, ts := frameInvs(st); len(ts) > 0 {
@@ -764,7 +764,7 @@ func (g *Gen) run() {
 			if !pos.IsValid() {
 				pos = g.curPos
 			}
-			for i, t := range evalInvs(hi, s, bst) {
+			for i, t := range evalInvs(hi, s, bst, roleAssert) {
 				g.addObNoAssume("inv_back", fmt.Sprintf("loop%d_preserved/%s", hi.ord, hi.invs[i].Label), pos, bst, t.S)
 			}
 			if ls, ts := frameInvs(bst); len(ls) > 0 {
